@@ -621,6 +621,14 @@ pub fn deviations() -> Vec<(usize, String, Box<dyn Fn(&mut RuleSpec) + Send + Sy
             r.markers.push(("h".into(), "(cat|dog)".into()));
         }),
     );
+    add(
+        1,
+        "host=@h.example.org(cat|dog) (regex extends the one of @h.example)",
+        Box::new(|r| {
+            r.host = Some("@h.example.org".into());
+            r.markers.push(("h".into(), "(cat|dog)".into()));
+        }),
+    );
     // ips
     add(2, "ip=in10/8", Box::new(|r| r.ips = Some(vec![(true, "10.0.0.0/8".into())])));
     add(2, "ip=notin10/8", Box::new(|r| r.ips = Some(vec![(false, "10.0.0.0/8".into())])));
@@ -666,6 +674,7 @@ pub fn deviations() -> Vec<(usize, String, Box<dyn Fn(&mut RuleSpec) + Send + Sy
     );
     add(4, "X=v&Y defined", Box::new(|r| r.headers = vec![hc("is_equals", "X", Some("v")), hc("is_defined", "Y", None)]));
     add(4, "X=v&Y not defined", Box::new(|r| r.headers = vec![hc("is_equals", "X", Some("v")), hc("is_not_defined", "Y", None)]));
+    add(4, "Y is_defined", Box::new(|r| r.headers = vec![hc("is_defined", "Y", None)]));
     add(4, "x(lower) is_equals V(upper)", Box::new(|r| r.headers = vec![hc("is_equals", "x", Some("V"))]));
     add(4, "unknown kind", Box::new(|r| r.headers = vec![hc("sounds_like", "X", Some("v"))]));
     add(4, "missing value", Box::new(|r| r.headers = vec![hc("is_equals", "X", None)]));
